@@ -125,14 +125,18 @@ func init() {
 			}
 			// lock granularity: a local write against the merge of two remote entries, every Lock/RLock of the
 			// status code, the write path and the index being a schedule point (preemption-bounded)
-			lb := 2
+			lcfg := []C17Arg{{Kind: "eventlog", N: 1, Per: 2, Bound: 2, Locks: true, Merge: 2}}
 			if tier == "thorough" {
-				lb = 3
+				lcfg = append(lcfg, C17Arg{Kind: "eventlog", N: 1, Per: 1, Bound: 3, Locks: true, Merge: 1},
+					C17Arg{Kind: "eventlog", N: 2, Per: 1, Bound: 2, Locks: true, Merge: 2},
+					C17Arg{Kind: "keyvalue-same", N: 1, Per: 2, Bound: 2, Locks: true, Merge: 2})
 			}
-			for _, x := range c17Units(C17Arg{Kind: "eventlog", N: 1, Per: 2, Bound: lb, Locks: true, Merge: 2}, 16) {
-				x.Arg = "L" + x.Arg
-				x.Name = "status-" + x.Name
-				u = append(u, x)
+			for _, cfg := range lcfg {
+				for _, x := range c17Units(cfg, 16) {
+					x.Arg = "L" + x.Arg
+					x.Name = "status-" + x.Name
+					u = append(u, x)
+				}
 			}
 			return u
 		},
